@@ -54,7 +54,8 @@ P("C06", "model_checking", kani={"timeout": "900s"},
   not_decided="spawn kinds (threads / tokio tasks)")
 P("C04", "model_checking", kani={"timeout": "900s"},
   bounded="depth profiles n<=3 (+n=4 samples), d<=3; join!/try_join!/join_async!/try_join_async!, with then/map/and_then handlers and let patterns; values symbolic",
-  not_decided="spawn kinds; the filtering closures of extract_results_tuple are outside Verus (FnMut capture)")
+  unbounded="the three index functions and the step destructuring: active_step_branch_count == #{i: depth_i > step} (R13 desugaring of iter/filter/count), step_results.k is indexed over active branches only, extract_results_tuple names exactly the active branches in branch order (R13 desugaring of the lazy filter with its counting closure) and hands ALL result names to the handler in branch order",
+  not_decided="spawn kinds; generate_step / join_steps (the assembly of the per-step tuples) are outside Verus and covered by the bounded programs only")
 
 P("C09", "model_checking", kani={"timeout": "1200s"},
   bounded="join_async!/try_join_async!, profiles n<=3 d<=2 (thorough: d<=3, n=4 sample), one harness-controlled gate per (branch, step) with symbolic pending count <= 1: every readiness pattern incl. batches; polls <= 1 + sum_s max_i p_is",
